@@ -73,6 +73,18 @@ impl<'a> RootSymbol<'a> {
     &self,
     specifier: &ModuleSpecifier,
   ) -> Option<ModuleInfoRef<'_>> {
+    self.module_from_specifier_inner(specifier, &mut Default::default())
+  }
+
+  fn module_from_specifier_inner(
+    &self,
+    specifier: &ModuleSpecifier,
+    visited: &mut std::collections::HashSet<ModuleSpecifier>,
+  ) -> Option<ModuleInfoRef<'_>> {
+    if !visited.insert(specifier.clone()) {
+      // modules that name each other as their types: prevent circular loops
+      return None;
+    }
     if let Some(module_id) = self.specifiers_to_ids.get(specifier) {
       let module_symbol = self.ids_to_modules.get(&module_id).unwrap();
       return Some(module_symbol.as_ref());
@@ -88,7 +100,7 @@ impl<'a> RootSymbol<'a> {
           types.dependency.maybe_specifier().and_then(|specifier| {
             // shouldn't happen, but prevent circular loops
             if specifier != &js_module.specifier {
-              self.module_from_specifier(specifier)
+              self.module_from_specifier_inner(specifier, visited)
             } else {
               None
             }
